@@ -109,6 +109,13 @@ CHECKS = {
             'behaviour, syntax/TIFA/runtime location and traceback lines, restoration.',
             'Chunks are built from a fixed line vocabulary with tagged diagnostics; marker patterns: default and one '
             'custom single-group pattern.', '3/C17'),
+    'C09': ('Complete enumeration of all branch-only flow programs up to a size bound + Hypothesis-generated larger ones, '
+            'judged against a brute-force ground truth over every combination of branch outcomes; loop/function programs '
+            'are really executed under plain exec for every input vector and every NameError must be reported',
+            'About 20k enumerated + 2k generated programs per quick run (360k + 21k thorough); two-directional for the '
+            'three initialisation labels and the unused rule, one-directional (no missed read) for loops and calls.',
+            'Reference walker (30 lines) and plain exec are the ground truth; two open known findings (for-body assumed '
+            'to run, function-local scoping) are tolerated by root-cause cell.', '3/C09'),
 }
 
 NOT_YET = {}
